@@ -58,8 +58,14 @@ class Event:
     def notify(self, args):
         for handler in self.subscribers[:]:
             handler, inner_args, kwargs, one_shot, predicate = handler
-            if predicate and not predicate(args):
-                continue
+            if predicate:
+                try:
+                    if not predicate(args):
+                        continue
+                except:
+                    # A failing predicate is that subscriber's problem, same as a failing handler.
+                    LOG.exception(f"Failed in predicate for {self.name}")
+                    continue
             if one_shot:
                 self.unsubscribe(handler, *inner_args, **kwargs)
             if asyncio.iscoroutinefunction(handler):
